@@ -343,6 +343,16 @@ class SwiftJudge(Judge):
             self.objc(scanned, nss, bad)
 
     # ---- Swift ----
+    # the Swift naming scheme appends an underscore to a name that is one of its reserved words (swift_helpers)
+    SWIFT_RESERVED = {'description', 'bool', 'double', 'int32', 'int64', 'list', 'string', 'timestamp', 'uint32', 'uint64', 'void',
+                      'associatedtype', 'class', 'deinit', 'enum', 'extension', 'func', 'import', 'init', 'inout', 'internal',
+                      'let', 'operator', 'private', 'protocol', 'public', 'static', 'struct', 'subscript', 'typealias', 'var',
+                      'default', 'hash', 'client'}
+
+    @classmethod
+    def sw(cls, n):
+        return n + '_' if n.lower() in cls.SWIFT_RESERVED else n
+
     def swift_types(self, scanned, nss, bad):
         tops = {}
         for rel, (code, top, _) in scanned['swift_types'].items():
@@ -357,19 +367,19 @@ class SwiftJudge(Judge):
                     bad('swift_types declares no class %s for namespace %s' % (nsn, s['ns']))
                 continue
             for st in _seq(s['structs']):
-                for n in (st['n'], st['n'] + 'Serializer'):
+                for n in (self.sw(st['n']), self.sw(st['n']) + 'Serializer'):
                     if sc.decls.get(('type', n), 0) != 1:
                         bad('swift_types: %s.%s declared %d times' % (nsn, n, sc.decls.get(('type', n), 0)))
-                tsc = sc.types.get(st['n'])
+                tsc = sc.types.get(self.sw(st['n']))
                 for m in _seq(st['members']):
                     if tsc is not None and tsc.decls.get(('prop', camel(m['n'])), 0) != 1:
                         bad('swift_types: field %s of %s.%s declared %d times' % (camel(m['n']), nsn, st['n'],
                                                                                   tsc.decls.get(('prop', camel(m['n'])), 0)))
             for u in _seq(s['unions']):
-                for n in (u['n'], u['n'] + 'Serializer'):
+                for n in (self.sw(u['n']), self.sw(u['n']) + 'Serializer'):
                     if sc.decls.get(('type', n), 0) != 1:
                         bad('swift_types: %s.%s declared %d times' % (nsn, n, sc.decls.get(('type', n), 0)))
-                tsc = sc.types.get(u['n'])
+                tsc = sc.types.get(self.sw(u['n']))
                 if tsc is not None and tsc.kind != 'enum':
                     bad('swift_types: union %s.%s is not an enum' % (nsn, u['n']))
                 for m in _seq(u['all_members']):
@@ -403,9 +413,9 @@ class SwiftJudge(Judge):
         for s in nss:
             pre = 'DBX' + pascal(s['ns'])
             for st in _seq(s['structs']):
-                sc = declared.get(pre + st['n'])
+                sc = declared.get(pre + self.sw(st['n']))
                 if sc is None:
-                    bad('swift_types --objc declares no class %s%s' % (pre, st['n']))
+                    bad('swift_types --objc declares no class %s%s' % (pre, self.sw(st['n'])))
                     continue
                 for m in _seq(st['members']):
                     if sc.decls.get(('prop', camel(m['n'])), 0) != 1:
